@@ -20,6 +20,7 @@ EXTENDS Integers, Sequences, FiniteSets, TLC, Json
 CONSTANTS Family, D,
           Lats,         \* latencies used by "latency" / "instant"
           DMinNeg, DMax, \* instant distances -DMinNeg..DMax ("instant"; TLC cfg files have no negative literals)
+          Small,        \* TRUE: reduced parameter sets (quick tier)
           NCfg          \* number of run-time switchable latency configurations of the variant (1 if none)
 
 VARIABLES hist, stage, n
@@ -93,13 +94,15 @@ UpdSet == { <<1, 0, 24, 0, 72, 0>>,            \* same interval, minimal window 
             <<2, 1, 6, 0, 10, 0>>,              \* shortest interval, shortest timeout
             <<4, 7, 16, 2, 30, 2500>> }
 
+UpdSmall == { <<8, 24, 24, 0, 72, 10000>>, <<3, 5, 40, 1, 200, 1250>>, <<2, 1, 6, 0, 10, 0>> }
+
 UpdateNext ==
     \/ /\ stage = "init"
-       /\ \E lat \in {0, 2}, sca \in {1, 6} :
+       /\ \E lat \in (IF Small THEN {2} ELSE {0, 2}), sca \in (IF Small THEN {1} ELSE {1, 6}) :
              DoAll(<<Conn(2, 3, 24, lat, 72, FullMap, 7, sca, 1000), Step(0, 0, 1)>>)
        /\ stage' = "q" /\ n' = 0
     \/ /\ stage = "q"
-       /\ \E u \in UpdSet, d \in {2, 3, 6} :
+       /\ \E u \in (IF Small THEN UpdSmall ELSE UpdSet), d \in (IF Small THEN {2, 6} ELSE {2, 3, 6}) :
              /\ DoAll(<<<<"q", "upd", d>> \o u, Step(0, 0, 1)>>)
              /\ n' = d + 3
        /\ stage' = "conn"
